@@ -183,6 +183,24 @@ func (st *State) intrinsic(g *G, fr *Frame, name string, fn *ssa.Function, args 
 	case "SetTimers":
 		st.timersOn = args[0].(*Term).IsTrue()
 		return nil, false
+	case "SymbolicClock":
+		// time becomes a solver variable: time.After(d) expires at clock+d, Advance(dt) moves the clock
+		st.clock = BV(64, 0)
+		return nil, false
+	case "Advance":
+		dt := args[0].(*Term)
+		if st.clock == nil {
+			return nil, false
+		}
+		st.assume(And(Cmp(">=", dt, BV(64, 0), true), Cmp("<=", dt, BV(64, 1<<50), true)))
+		st.clock = Arith("+", st.clock, dt, true)
+		st.clockVer++
+		return nil, false
+	case "Now":
+		if st.clock == nil {
+			return BV(64, 0), false
+		}
+		return st.clock, false
 	case "SetTimerLimit":
 		if t := args[0].(*Term); t.Const {
 			st.timerLimit = signed(64, t.U)
